@@ -19,6 +19,8 @@ for f in sorted(glob.glob('/verif/seeded/*/meta.json')):
     verdict = {1: 'caught', 0: 'MISSED', 2: 'undecided'}.get(ck.get('exit'), '?')
     if d.get('in_scope') is False:
         verdict = 'quiet (correct: out of scope)'
+    if d.get('in_scope') == 'unreachable':
+        verdict = 'MISSED (out of reach by construction)'
     if d.get('assessment'):
         needs = d['assessment'].replace('|', '/')[:260]
     valid = d.get('valid', 'own')
